@@ -99,6 +99,8 @@ struct Inner {
     steps_in_op:  Vec<u32>,
     /// threads that asked to let the others run first (harness-level back-off of a retry loop)
     yielding:     Vec<bool>,
+    fair_next:    Vec<u32>,
+    fair_turn:    Vec<u32>,
 }
 
 pub struct Sched {
@@ -296,6 +298,8 @@ impl Sched {
                 waker_superseded: vec![],
                 dead_waker_uses_superseded: 0,
                 yielding: vec![false; n],
+                fair_next: vec![FAIRNESS_WINDOW; n],
+                fair_turn: vec![0; n],
                 steps_of: vec![0; n],
                 steps_in_op: vec![0; n],
                 solo_steps: vec![0; n],
@@ -378,10 +382,15 @@ impl Sched {
         }
         // bounded fairness: a thread that has executed many scheduling points inside one operation (a retry loop that keeps
         // writing, so it never looks stuck) lets the others run before it continues
-        if g.in_op[me] && g.steps_in_op[me] > 0 && g.steps_in_op[me] % FAIRNESS_WINDOW == 0 && !g.draining {
+        // (the distance between two such turns varies, so a retry loop of fixed length is not always interrupted at the same place --
+        //  e.g. always while it holds a spin lock the other thread needs)
+        if g.in_op[me] && g.steps_in_op[me] >= g.fair_next[me] && !g.draining {
+            g.fair_turn[me] += 1;
+            let turn = g.fair_turn[me];
+            g.fair_next[me] = g.steps_in_op[me] + FAIRNESS_WINDOW - 11 + (turn * 7) % 23;
             let others: Vec<usize> = g.eligible_list().into_iter().filter(|&t| t != me).collect();
             if !others.is_empty() {
-                let next = others[(g.steps_in_op[me] / FAIRNESS_WINDOW) as usize % others.len()];
+                let next = others[turn as usize % others.len()];
                 return self.switch_and_wait(g, me, next, false);
             }
         }
@@ -505,7 +514,7 @@ impl Sched {
     pub fn steps_of(&self, tid: usize) -> u32 { self.m.lock().unwrap().steps_of[tid] }
     pub fn solo_steps_of(&self, tid: usize) -> u32 { self.m.lock().unwrap().solo_steps[tid] }
 
-    fn set_in_op(&self, me: usize, v: bool) { let mut g = self.m.lock().unwrap(); g.in_op[me] = v; g.steps_in_op[me] = 0; }
+    fn set_in_op(&self, me: usize, v: bool) { let mut g = self.m.lock().unwrap(); g.in_op[me] = v; g.steps_in_op[me] = 0; g.fair_next[me] = FAIRNESS_WINDOW; g.fair_turn[me] = 0; }
 
     /// Runs the logical threads to the end of the run and returns what happened
     pub fn execute(self: &Arc<Self>, bodies: Vec<Box<dyn FnOnce(&ThreadCtx) + Send>>) -> Outcome {
@@ -635,11 +644,13 @@ unsafe fn wk_wake_by_ref(data: *const ()) {
     // a preemption between loading the waker from its slot and using it
     verif::yield_point("waker.wake");
     with_ctx(|s, me| {
-        {
+        let superseded = {
             let mut g = s.m.lock().unwrap();
             if idx < g.waker_lib_clones.len() && g.waker_lib_clones[idx] <= 0 { g.dead_waker_uses += 1; if g.waker_superseded[idx] { g.dead_waker_uses_superseded += 1; } }
-        }
-        s.wake(target, me);
+            idx < g.waker_superseded.len() && g.waker_superseded[idx]
+        };
+        // a waker the task has replaced by a fresh one belongs to a context that no longer polls the stream: invoking it wakes nobody
+        if !superseded { s.wake(target, me); }
     });
 }
 unsafe fn wk_drop(data: *const ()) {
